@@ -22,5 +22,6 @@ CONSTANTS
   EncodeAtEnqueue = FALSE
   BugZeroCostHeld = FALSE
   SplitOnlyAtEnqueue = FALSE
+  DropOnClose = FALSE
 CONSTRAINT Emit
 CHECK_DEADLOCK FALSE
